@@ -7,7 +7,8 @@ mm, of angular ones in cc; standard deviations of observations in mm / cc.
 Reference model (independent of gama's code, built on gnet.ref_value):
   A     numeric Jacobian (central differences) of the reference observation
         functions at the linearisation point the XML reports
-        (<fixed> + <approximate>), rows scaled to mm|cc per mm|cc;
+        (<fixed> + <approximate>), rows scaled to mm|cc per mm|cc (observed
+        coordinates: exactly 1 / 0);
   P     m0a^2 * C^-1 with C = diag(stdev^2) or the full cluster cov-mat;
   Q     (A'PA)^-1 (Gauss elimination, partial pivoting);
   q_h   p_i * a_i' Q a_i  (homogenised cofactor of the adjusted observation).
@@ -40,6 +41,13 @@ class Template:
 
 def _c(name, cl, obs, noisy=True, fixed_err=0.0):
     return {"name": name, "cl": cl, "obs": obs, "noisy": noisy, "fixed_err": fixed_err}
+
+
+def _coord(pid, sx, sy, cxy=0.0):
+    """observed coordinates x, y of point pid; csig = (sigma_x [mm], sigma_y [mm], cov_xy [mm^2])"""
+    o = Obs("coord", to=pid, comps="xy")
+    o.csig = (sx, sy, cxy)
+    return o
 
 
 def template(name):
@@ -78,8 +86,8 @@ def template(name):
         ]
         return Template(name, pts, cand)
     if name == "T2X":
-        # one new point seen along the coordinate axes only: the normal matrix is exactly diagonal, the xy
-        # covariance of P exactly 0 and q_yy > q_xx (heavier distances along x): major semi-axis along y,
+        # one new point seen along the coordinate axes only: the normal matrix is diagonal up to rounding
+        # (sin(pi), cos(pi/2) are 1e-16: the xy covariance of P is ~1e-15, see T2C for exact zeros) and q_yy > q_xx (heavier distances along x): major semi-axis along y,
         # bearing 100 gon; subsets reach q_xx > q_yy as well
         pts = [Pt("A", 0, 100, xy="fix"), Pt("B", 100, 0, xy="fix"), Pt("C", 200, 100, xy="fix"),
                Pt("D", 100, 300, xy="fix"), Pt("P", 100, 100, xy="adj")]
@@ -89,6 +97,29 @@ def template(name):
             _c("sCP", "o", Obs("distance", "C", "P", stdev=4.0), noisy=False, fixed_err=0.5),
             _c("sDP", "o", Obs("distance", "D", "P", stdev=9.0), noisy=False, fixed_err=-0.4),
             _c("sPB", "o", Obs("distance", "P", "B", stdev=2.0), noisy=False, fixed_err=0.3),
+        ]
+        return Template(name, pts, cand)
+    if name == "T2C":
+        # observed coordinates (GNSS-like <coordinates> clusters): G1 and G2 are tied to the network only by
+        # observed coordinates with DIAGONAL covariance matrices (and by one distance with bearing exactly 0,
+        # coefficients exactly (1,0)): their xy covariance is exactly 0; G1 has sigma_x < sigma_y in both
+        # sessions (major axis along y, bearing 100 gon), G2 sigma_x > sigma_y (bearing 0).  G3 has one
+        # observation with a full 2x2 block (cluster with a non-diagonal cov-mat) and one with a diagonal
+        # block, and a distance from the fixed point A.  csig = (sigma_x, sigma_y, cov_xy) in mm, mm, mm^2.
+        # gama takes the observed coordinates as the linearisation point: the y errors of G1 and G2 are
+        # +-4 mm in both sessions (G1: noisy, G2: fixed errors), so that for sign '+' of G1 the bearing
+        # G1 -> G2 is exactly 0 there (xy covariances exactly 0 with the distance present), for '-' 4e-5 rad.
+        pts = [Pt("A", 0, 0, xy="fix"), Pt("G1", 100, 100, xy="adj"), Pt("G2", 300, 100, xy="adj"),
+               Pt("G3", 200, 200, xy="adj")]
+        cand = [
+            _c("c1G1", "g1", _coord("G1", 3.0, 8.0), fixed_err=(1.0, -0.5)),
+            _c("c1G2", "g1", _coord("G2", 7.0, 4.0), noisy=False, fixed_err=(0.9, -1.0)),
+            _c("c2G1", "g2", _coord("G1", 4.0, 10.0), fixed_err=(-1.0, 0.4)),
+            _c("c2G2", "g2", _coord("G2", 6.0, 5.0), noisy=False, fixed_err=(-0.6, 0.8)),
+            _c("c2G3", "g2", _coord("G3", 9.0, 6.5), noisy=False, fixed_err=(0.4, -0.3)),
+            _c("c3G3", "g3", _coord("G3", 5.0, 6.0, 12.0), noisy=False, fixed_err=(-0.5, 0.7)),
+            _c("sAG3", "o", Obs("distance", "A", "G3", stdev=5.0), noisy=False, fixed_err=0.6),
+            _c("sG12", "o", Obs("distance", "G1", "G2", stdev=6.0), noisy=False, fixed_err=-0.4),
         ]
         return Template(name, pts, cand)
     if name == "T1":
@@ -160,10 +191,29 @@ def passive_obs(T, key, k):
     elif key == "v":
         o = Obs("vec", "B", pid, val=(10.0 + k, 20.0, 3.0))
         pt = Pt(pid)
+    elif key.startswith("g"):
+        # observed coordinates of a point that is listed without fix/adj; in the cluster with the full
+        # block the passive member is correlated as well
+        o = _coord(pid, 5.5 + k, 3.5 + k, 7.0 if key == "g3" else 0.0)
+        o.val = (150.0 + k, 250.0 - k)
+        pt = Pt(pid)
     else:
         raise KeyError(key)
     o.passive = True
     return o, pt
+
+
+def coord_cov(obs):
+    """covariance matrix of a <coordinates> cluster from the csig of its members (all of them, passive
+    ones included): band 0 when every block is diagonal, else band 1 (x_i, y_i correlated, no
+    correlation between different points)"""
+    d = []
+    for o in obs:
+        sx, sy, cxy = o.csig
+        d += [(sx * sx, cxy), (sy * sy, 0.0)]
+    n = len(d)
+    band = 1 if any(o.csig[2] != 0.0 for o in obs) else 0
+    return gnet.band_cov(n, band, lambda i, j: d[i][0] if i == j else d[i][1])
 
 
 def vec_cov(nvec):
@@ -188,6 +238,9 @@ def build_net(T, subset, signs, params, passive=()):
         o = c["obs"].copy()
         if o.kind == "vec":
             o.err = tuple(f * s * 1e-3 for f, s in zip(c["fixed_err"], VEC_SIG))
+        elif o.kind == "coord":
+            sg = signs[i] if c["noisy"] else 1
+            o.err = tuple(sg * f * s * 1e-3 for f, s in zip(c["fixed_err"], o.csig[:2]))
         elif c["noisy"]:
             o.err = signs[i] * noise_unit(o)
         else:
@@ -202,6 +255,8 @@ def build_net(T, subset, signs, params, passive=()):
                 clusters[key] = Cluster("height-differences", [])
             elif key == "v":
                 clusters[key] = Cluster("vectors", [])
+            elif key.startswith("g"):
+                clusters[key] = Cluster("coordinates", [])
             order.append(key)
         clusters[key].obs.append(o)
     cl = [clusters[k] for k in order]
@@ -218,6 +273,8 @@ def build_net(T, subset, signs, params, passive=()):
     for c in cl:
         if c.kind == "vectors":
             c.cov = vec_cov(len(c.obs))
+        elif c.kind == "coordinates":
+            c.cov = coord_cov(c.obs)
     return net
 
 
@@ -226,12 +283,21 @@ def scalar_rows(net):
     """rows of the ACTIVE observations: dict(key, o, comp, cluster index, position among all
     scalar components of the cluster, sigma or None, angular)"""
     rows = []
+    occ = {}
     for ci, c in enumerate(net.clusters):
         pos = 0
+        first = len(rows)
         for o in c.obs:
             if getattr(o, "passive", False):
                 pos += o.dim(); continue
-            if o.kind == "vec":
+            if o.kind == "coord":
+                # the adjustment XML has one <coordinate-x|y> row per component, identified by the point id
+                # only: the key carries the occurrence number (input order) of the point among the active rows
+                for j, ch in enumerate(o.comps):
+                    t = "coordinate-" + ch
+                    n = occ.get((t, o.to), 0); occ[(t, o.to)] = n + 1
+                    rows.append({"key": (t, o.to, n), "o": o, "comp": j, "ci": ci, "pos": pos + j, "sigma": None, "ang": False})
+            elif o.kind == "vec":
                 for j, t in enumerate(("dx", "dy", "dz")):
                     rows.append({"key": (t, o.frm, o.to), "o": o, "comp": j, "ci": ci, "pos": pos + j, "sigma": None, "ang": False})
             elif o.kind == "angle":
@@ -242,13 +308,46 @@ def scalar_rows(net):
                              "sigma": o.stdev if c.cov is None else None,
                              "ang": o.kind in ("direction", "z-angle", "azimuth")})
             pos += o.dim()
+        if c.kind == "coordinates" and c.cov is not None:
+            # a member of a <coordinates> cluster is an uncorrelated observation (sigma = sqrt of its
+            # variance) iff its covariance with every other ACTIVE member is exactly zero
+            Cf = _full_cov(c.cov)
+            act = rows[first:]
+            for r in act:
+                if all(Cf[r["pos"]][q["pos"]] == 0.0 for q in act if q is not r):
+                    r["sigma"] = math.sqrt(Cf[r["pos"]][r["pos"]])
     return rows
+
+
+def _full_cov(cov):
+    band, rws = cov
+    nf = len(rws)
+    Cf = [[0.0] * nf for _ in range(nf)]
+    for i, rw in enumerate(rws):
+        for j, v in enumerate(rw):
+            Cf[i][i + j] = Cf[i + j][i] = v
+    return Cf
 
 
 def xml_key(d):
     if d["tag"] == "angle":
         return ("angle", d["from"], d["left"], d["right"])
+    if d["tag"].startswith("coordinate-"):
+        return (d["tag"], d.get("id"))
     return (d["tag"], d.get("from"), d.get("to"))
+
+
+def xml_keys(obs):
+    """keys of all <observations> rows in document order; <coordinate-*> rows (identified by the point
+    id only) get the occurrence number of (tag, id) appended, as in scalar_rows()"""
+    out = []; occ = {}
+    for d in obs:
+        k = xml_key(d)
+        if d["tag"].startswith("coordinate-"):
+            n = occ.get(k, 0); occ[k] = n + 1
+            k = k + (n,)
+        out.append(k)
+    return out
 
 
 def _val(row, C, orient):
@@ -282,6 +381,9 @@ def jacobian(rows, labels, C0):
                 continue
             if pid not in ids:
                 a.append(0.0); continue
+            if o.kind == "coord":
+                # an observed coordinate is the unknown itself: the derivative is exactly 1 / 0
+                a.append(1.0 if o.comps[r["comp"]] == c else 0.0); continue
             k = "xyz".index(c)
             p = list(C0[pid])
             if p[k] is None:
@@ -329,12 +431,7 @@ def cluster_weights(net, rows):
             for k in idx:
                 blocks.append(([k], [[1.0 / rows[k]["sigma"] ** 2]]))
         else:
-            band, rws = c.cov
-            nf = len(rws)
-            Cf = [[0.0] * nf for _ in range(nf)]
-            for i, rw in enumerate(rws):
-                for j, v in enumerate(rw):
-                    Cf[i][i + j] = Cf[i + j][i] = v
+            Cf = _full_cov(c.cov)
             sel = [rows[k]["pos"] for k in idx]                   # covariance of the active members
             Cm = [[Cf[a][b] for b in sel] for a in sel]
             Ci, _ = inv_spd(Cm)
@@ -640,8 +737,8 @@ def oracle(net, R, text, info=None):
     sm = {}
     # ---- participation / counts ------------------------------------------------
     xobs = {}
-    for d in R.obs:
-        xobs[xml_key(d)] = d
+    for d, key in zip(R.obs, xml_keys(R.obs)):
+        xobs[key] = d
     keys_in = [r["key"] for r in rows]
     if sorted(map(str, keys_in)) != sorted(map(str, xobs.keys())) or len(R.obs) != len(rows):
         miss = [k for k in keys_in if k not in xobs]
